@@ -181,9 +181,15 @@ def gen_pure(tier, rng):
         v = rng.randint(0, 5)
         s = [a.lower(), " " + a + " ", a + ":" + b.lower(), " " + a + " : " + b + " ", col_name(x).lower() + ":" + col_name(zz), " %d : %d " % (y + 1, t + 1)][v]
         specs.append(dict(k="conv", s=s, valid=True))
+    for s in ["", ":", "A3:", ":B2", "3:", ":10", "A:", ":G", "1:H", "A:4", "C", "12", " 3 : ", "a3 :"]:
+        specs.append(dict(k="conv", s=s, valid=True))
+    for _ in range(200 if tier == "quick" else 4000):
+        x, y, zz, t = rx(), ry(), rx(), ry()
+        left = rng.choice(["", col_name(x), str(y + 1), cell_name(x, y)]); right = rng.choice(["", col_name(zz), str(t + 1), cell_name(zz, t)])
+        specs.append(dict(k="conv", s=left + ":" + right, valid=True))
     # malformed / outside the property's domain: compared, but a difference is only a fidelity note
-    bad = ["", ":", "A0", "A-1", "1A", "A1:B", "é1", "A1:B2:C3", "$A$1", "A 1", "A+1", "A1.5", "٣", "A1_0", "A:1", "1:A", "a", "7",
-           " ", "A1:", ":B2", "A00", "A01", "AA", "-1", "A1 B2", "A1;B2", "Ω3", "A\t1", "A1\n"]
+    bad = ["A0", "A-1", "1A", "A1:B", "é1", "A1:B2:C3", "$A$1", "A 1", "A+1", "A1.5", "٣", "A1_0",
+           " ", "A00", "A01", "AA", "-1", "A1 B2", "A1;B2", "Ω3", "A\t1", "A1\n"]
     for s in bad:
         specs.append(dict(k="conv", s=s, valid=False))
     for _ in range(300 if tier == "quick" else 5000):
@@ -304,8 +310,9 @@ def table_xml(tb, name="T"):
     return "".join(out)
 
 
-def abstract_table(xml):
-    """independent lxml walk of a serialised table:table -> (cols : [id|None], grid : [[int|None]])"""
+def abstract_table(xml, spans=False):
+    """independent lxml walk of a serialised table:table -> (cols : [id|None], grid : [[int|None]])
+    spans=True: a spanning cell is coded value*100 + 10*rows + cols, a covered cell as -5 - value"""
     root = etree.fromstring('<r %s>%s</r>' % (NSDECL, xml))[0]
     cols, grid = [], []
     for e in root.iter(TB + "table-column"):
@@ -320,7 +327,14 @@ def abstract_table(xml):
                 continue
             crep = int(c.get(TB + "number-columns-repeated") or 1)
             v = c.get(OF + "value")
-            row += [int(float(v)) if v is not None else None] * crep
+            v = int(float(v)) if v is not None else None
+            if spans:
+                rs, cspan = c.get(TB + "number-rows-spanned"), c.get(TB + "number-columns-spanned")
+                if rs or cspan:
+                    v = (v or 0) * 100 + 10 * int(rs or 1) + int(cspan or 1)
+                if c.tag == TB + "covered-table-cell":
+                    v = -5 - (v or 0)
+            row += [v] * crep
         grid += [list(row) for _ in range(rrep)]
     return cols, grid
 
@@ -356,7 +370,10 @@ Inductive tcall :=
 | GetCell (c : coordarg) | GetValue (c : coordarg) | GetValues (c : option coordarg) | IterValues (c : option coordarg)
 | GetCells (c : option coordarg) | GetRows (c : option coordarg) | GetColumns (c : option coordarg)
 | GetRow (y : anyarg) | GetRowValues (y : anyarg) | GetColumn (x : anyarg) | GetColumnValues (x : anyarg) | GetColumnCells (x : anyarg)
-| RowGetCell (j : Z) (x : anyarg) | RowGetValue (j : Z) (x : anyarg) | RowGetValues (j : Z) (c : option coordarg) | RowGetCells (j : Z) (c : option coordarg).
+| RowGetCell (j : Z) (x : anyarg) | RowGetValue (j : Z) (x : anyarg) | RowGetValues (j : Z) (c : option coordarg) | RowGetCells (j : Z) (c : option coordarg)
+| IsRowEmpty (y : anyarg) | IsColumnEmpty (x : anyarg).
+Definition all_none (l : list cellv) : bool := forallb (fun v => match v with None => true | Some _ => false end) l.
+Definition b2v (b : bool) : cellv := Some (if b then 1 else 0).
 Definition ores {A} (o : option A) (f : A -> res) : res := match o with Some a => f a | None => RErr end.
 Definition the_row (g : grid) (j : Z) : list cellv := match nthZ g j with Some r => r | None => [] end.
 Definition expected (cols : list Z) (g : grid) (c : tcall) : res :=
@@ -375,6 +392,8 @@ Definition expected (cols : list Z) (g : grid) (c : tcall) : res :=
   | RowGetCell j x => ores (row_get_cell (the_row g j) x) (fun r => RXV (fst r) (snd r))
   | RowGetValue j x => ores (row_get_cell (the_row g j) x) (fun r => RVal (snd r))
   | RowGetValues j c | RowGetCells j c => ores (row_get_values (the_row g j) c) RList
+  | IsRowEmpty y => ores (translate_from_any y h 1) (fun y' => RVal (b2v (all_none (the_row g y'))))
+  | IsColumnEmpty x => ores (table_get_column w g x) (fun r => RVal (b2v (all_none (snd r))))
   end.
 Definition le_o (a : option Z) (b : Z) := match a with Some a' => a' <=? b | None => true end.
 Definition ge_o (a : option Z) (b : Z) := match a with Some a' => b <=? a' | None => true end.
@@ -405,7 +424,7 @@ Definition chk (c : case_t) : nat :=
 '''
 
 READERS = ["GetCell", "GetValue", "GetValues", "IterValues", "GetCells", "GetRows", "GetColumns", "GetRow", "GetRowValues",
-           "GetColumn", "GetColumnValues", "GetColumnCells", "RowGetCell", "RowGetValue", "RowGetValues", "RowGetCells"]
+           "GetColumn", "GetColumnValues", "GetColumnCells", "RowGetCell", "RowGetValue", "RowGetValues", "RowGetCells", "IsRowEmpty", "IsColumnEmpty"]
 
 
 def neg_variants(rng, comps, lens):
@@ -431,14 +450,14 @@ def gen_read_case(rng, tier):
         x, zz = zz, x
     if rng.random() < .05:
         y, t = t, y
-    forms, bounds, valid, j = [], [None] * 4, True, None
+    forms, bounds, valid, j, cls = [], [None] * 4, True, None, None
     if m in ("GetCell", "GetValue"):
         forms = [("s", cell_name(x, y)), ("t", [x, y]), ("s", cell_name(x, y).lower()), ("s", cell_name(x, y) + ":" + cell_name(x + 1, y + 2)), ("t", [x, y, x + 1, y + 2]),
                  ("t", neg_variants(rng, [x, y], [w, h]))]
         if w == 0:
             forms.append(("t", [-rng.randint(1, 3), -rng.randint(1, 3)] if x == 0 and y == 0 else [x, y]))
     elif m in ("GetValues", "IterValues", "GetCells"):
-        kind = rng.randint(0, 5)
+        kind = rng.randint(0, 7)
         if kind == 0:
             forms = [("s", cell_name(x, y) + ":" + cell_name(zz, t)), ("t", [x, y, zz, t]), ("t", neg_variants(rng, [x, y, zz, t], [w, h, w, h])),
                      ("s", " " + cell_name(x, y).lower() + " : " + cell_name(zz, t) + " ")]
@@ -455,8 +474,14 @@ def gen_read_case(rng, tier):
         elif kind == 4:
             forms = [("t", [y]), ("t", [y, y]), ("s", "%d:%d" % (y + 1, y + 1)), ("t", neg_variants(rng, [y], [h]))]
             bounds = [None, y, None, y]
+        elif kind == 5:
+            forms = [None, ("s", ""), ("t", []), ("s", ":")]
+        elif kind == 6:
+            forms = [("s", cell_name(x, y) + ":"), ("t", [x, y, None, None]), ("s", " " + cell_name(x, y).lower() + " : ")]
+            bounds = [x, y, None, None]
         else:
-            forms = [None, ("s", ""), ("t", [])]
+            forms = [("s", ":" + cell_name(zz, t)), ("t", [None, None, zz, t])]
+            bounds = [None, None, zz, t]
     elif m == "GetRows":
         kind = rng.randint(0, 3)
         if kind == 0:
@@ -485,13 +510,13 @@ def gen_read_case(rng, tier):
             bounds = [x, None, zz, None]
         else:
             forms = [None, ("s", ""), ("t", [])]
-    elif m in ("GetRow", "GetRowValues"):
+    elif m in ("GetRow", "GetRowValues", "IsRowEmpty"):
         forms = [("s", str(y + 1)), ("i", y), ("s", cell_name(x, y)), ("s", cell_name(x, y).lower())]
         if 0 <= y < h:
             forms.append(("i", y - h))
         if h == 0 and y == 0:
             forms.append(("i", -rng.randint(1, 4)))
-    elif m in ("GetColumn", "GetColumnValues", "GetColumnCells"):
+    elif m in ("GetColumn", "GetColumnValues", "GetColumnCells", "IsColumnEmpty"):
         forms = [("s", col_name(x)), ("i", x), ("s", cell_name(x, y)), ("s", col_name(x).lower())]
         if 0 <= x < w:
             forms.append(("i", x - w))
@@ -504,8 +529,12 @@ def gen_read_case(rng, tier):
             forms = [("s", col_name(x)), ("i", x), ("s", col_name(x).lower()), ("s", cell_name(x, j))]
             forms.append(("neg", x))   # resolved at run time against the row's own width
         else:
-            kind = rng.randint(0, 2)
-            if kind == 0:
+            kind = rng.randint(0, 3)
+            if kind == 3:
+                # a cell reference given to a row: the cell of that column (known finding F86: the row number is read as the end column)
+                forms = [("s", cell_name(x, j)), ("t", [x, x])]
+                bounds = [x, None, x, None]; cls = "cell-reference-in-row-context"
+            elif kind == 0:
                 forms = [("s", col_name(x) + ":" + col_name(zz)), ("t", [x, zz]), ("t", [x, None, zz, None]), ("negt", [x, zz])]
                 bounds = [x, None, zz, None]
             elif kind == 1:
@@ -513,7 +542,7 @@ def gen_read_case(rng, tier):
                 bounds = [x, None, x, None]
             else:
                 forms = [None, ("s", ""), ("t", [])]
-    return dict(k="read", table=tb, m=m, j=j, forms=forms, bounds=bounds, valid=valid)
+    return dict(k="read", table=tb, m=m, j=j, forms=forms, bounds=bounds, valid=valid, cls=cls)
 
 
 def row_values(row):
@@ -556,53 +585,59 @@ def do_read(t, m, j, f):
     ot = oform_term(f) if (f is None or f[0] == "t" or m in ("GetValues", "IterValues", "GetCells", "GetRows", "GetColumns", "RowGetValues", "RowGetCells")) else None
     if m == "GetCell":
         r = guarded(lambda: (lambda c: (c.x, c.y, val(c.value)))(t.get_cell(a)))
-        return "GetCell %s" % form_term(f), res_term("cell", r)
+        return "GetCell %s" % form_term(f), res_term("cell", r), ("cell", r)
     if m == "GetValue":
         r = guarded(lambda: val(t.get_value(a)))
-        return "GetValue %s" % form_term(f), res_term("val", r)
+        return "GetValue %s" % form_term(f), res_term("val", r), ("val", r)
     if m == "GetValues":
         r = guarded(lambda: [[val(v) for v in row] for row in t.get_values(a)])
-        return "GetValues %s" % ot, res_term("mat", r)
+        return "GetValues %s" % ot, res_term("mat", r), ("mat", r)
     if m == "IterValues":
         r = guarded(lambda: [[val(v) for v in row] for row in t.iter_values(a)])
-        return "IterValues %s" % ot, res_term("mat", r)
+        return "IterValues %s" % ot, res_term("mat", r), ("mat", r)
     if m == "GetCells":
         r = guarded(lambda: [[val(c.value) for c in row] for row in t.get_cells(a)])
-        return "GetCells %s" % ot, res_term("mat", r)
+        return "GetCells %s" % ot, res_term("mat", r), ("mat", r)
     if m == "GetRows":
         r = guarded(lambda: [(row.y, row_values(row)) for row in t.get_rows(a)])
-        return "GetRows %s" % ot, res_term("rows", r)
+        return "GetRows %s" % ot, res_term("rows", r), ("rows", r)
     if m == "GetColumns":
         r = guarded(lambda: [(c.x, col_id(c)) for c in t.get_columns(a)])
-        return "GetColumns %s" % ot, res_term("cols", r)
+        return "GetColumns %s" % ot, res_term("cols", r), ("cols", r)
     if m == "GetRow":
         r = guarded(lambda: (lambda row: [(row.y, row_values(row))])(t.get_row(a)))
-        return "GetRow %s" % any_term(f), res_term("rows", r)
+        return "GetRow %s" % any_term(f), res_term("rows", r), ("rows", r)
     if m == "GetRowValues":
         r = guarded(lambda: [val(v) for v in t.get_row_values(a)])
-        return "GetRowValues %s" % any_term(f), res_term("list", r)
+        return "GetRowValues %s" % any_term(f), res_term("list", r), ("list", r)
     if m == "GetColumn":
         r = guarded(lambda: (lambda c: [(c.x, col_id(c))])(t.get_column(a)))
-        return "GetColumn %s" % any_term(f), res_term("cols", r)
+        return "GetColumn %s" % any_term(f), res_term("cols", r), ("cols", r)
     if m == "GetColumnValues":
         r = guarded(lambda: [val(v) for v in t.get_column_values(a)])
-        return "GetColumnValues %s" % any_term(f), res_term("list", r)
+        return "GetColumnValues %s" % any_term(f), res_term("list", r), ("list", r)
     if m == "GetColumnCells":
         r = guarded(lambda: [val(c.value) if c is not None else None for c in t.get_column_cells(a)])
-        return "GetColumnCells %s" % any_term(f), res_term("list", r)
+        return "GetColumnCells %s" % any_term(f), res_term("list", r), ("list", r)
+    if m == "IsRowEmpty":
+        r = guarded(lambda: 1 if t.is_row_empty(a) else 0)
+        return "IsRowEmpty %s" % any_term(f), res_term("val", r), ("val", r)
+    if m == "IsColumnEmpty":
+        r = guarded(lambda: 1 if t.is_column_empty(a) else 0)
+        return "IsColumnEmpty %s" % any_term(f), res_term("val", r), ("val", r)
     row = t.get_row(j)
     if m == "RowGetCell":
         r = guarded(lambda: (lambda c: (c.x, val(c.value)))(row.get_cell(a)))
-        return "RowGetCell %s %s" % (z(j), any_term(f)), res_term("xv", r)
+        return "RowGetCell %s %s" % (z(j), any_term(f)), res_term("xv", r), ("xv", r)
     if m == "RowGetValue":
         r = guarded(lambda: val(row.get_value(a)))
-        return "RowGetValue %s %s" % (z(j), any_term(f)), res_term("val", r)
+        return "RowGetValue %s %s" % (z(j), any_term(f)), res_term("val", r), ("val", r)
     if m == "RowGetValues":
         r = guarded(lambda: [val(v) for v in row.get_values(a)])
-        return "RowGetValues %s %s" % (z(j), ot), res_term("list", r)
+        return "RowGetValues %s %s" % (z(j), ot), res_term("list", r), ("list", r)
     if m == "RowGetCells":
         r = guarded(lambda: [val(c.value) for c in row.get_cells(a)])
-        return "RowGetCells %s %s" % (z(j), ot), res_term("list", r)
+        return "RowGetCells %s %s" % (z(j), ot), res_term("list", r), ("list", r)
     raise KeyError(m)
 
 
@@ -617,7 +652,7 @@ def run_read(spec, odfdo):
             f = ("i", f[1] - rw if 0 <= f[1] < rw else f[1])
         elif f is not None and f[0] == "negt":
             f = ("t", [v - rw if 0 <= v < rw else v for v in f[1]])
-        pairs.append(do_read(t, spec["m"], j, f))
+        pairs.append(do_read(t, spec["m"], j, f)[:2])
     cols2, grid2 = abstract_table(t.serialize())
     same = (cols2, grid2) == (cols, grid)
     term = "((%s, %s, (%s, %s, %s, %s), %s, [%s]) : case_t)" % (cols_term(cols), grid_term(grid), *[oz(b) for b in spec["bounds"]],
@@ -625,7 +660,39 @@ def run_read(spec, odfdo):
     return term, same
 
 
+def oracle_read(spec, odfdo):
+    """direct Python oracle of the property for one reader case: all forms return the same thing and ranges bound it"""
+    t = odfdo.Element.from_tag(table_xml(spec["table"]))
+    _, grid = abstract_table(t.serialize())
+    j = spec["j"]; rw = len(grid[j]) if j is not None and j < len(grid) else 0
+    raws = []
+    for f in spec["forms"]:
+        if f is not None and f[0] == "neg":
+            f = ("i", f[1] - rw if 0 <= f[1] < rw else f[1])
+        elif f is not None and f[0] == "negt":
+            f = ("t", [v - rw if 0 <= v < rw else v for v in f[1]])
+        raws.append(do_read(t, spec["m"], j, f)[2])
+    nz = lambda kr: (kr[0], kr[1][0], kr[1][1] if kr[1][0] == "ok" else None)
+    if any(nz(r) != nz(raws[0]) for r in raws):
+        return "forms-disagree"
+    x, y, zz, tt = spec["bounds"]
+    for kind, r in raws:
+        if r[0] != "ok":
+            continue
+        if kind == "rows" and any((y is not None and a < y) or (tt is not None and a > tt) for a, _ in r[1]):
+            return "range-not-bounded"
+        if kind == "cols" and any((x is not None and a < x) or (zz is not None and a > zz) for a, _ in r[1]):
+            return "range-not-bounded"
+        if kind == "mat" and y is not None and tt is not None and len(r[1]) > max(0, tt - y + 1):
+            return "range-not-bounded"
+        if kind == "mat" and x is not None and zz is not None and any(len(row) > max(0, zz - x + 1) for row in r[1]):
+            return "range-not-bounded"
+    return None
+
+
 def key_read(spec, code):
+    if spec.get("cls") and code in (1, 4):
+        return "row.py/_translate_row_coordinates/%s" % spec["cls"]
     cls = {1: "forms-disagree", 4: "range-not-bounded", 2: "not-the-model-slice"}.get(code, "code%d" % code)
     return "table.py/%s/%s" % (spec["m"], cls)
 
@@ -656,7 +723,8 @@ Inductive wcall :=
 | AppendCell (y : anyarg) (v : Z)
 | InsertColumn (x : anyarg) | DeleteColumn (x : anyarg) | SetColumnValues (x : anyarg) (r : list cellv)
 | RowSetValue (j : Z) (x : anyarg) (v : Z) | RowInsertCell (j : Z) (x : anyarg) (v : Z) | RowDeleteCell (j : Z) (x : anyarg)
-| RowSetValues (j : Z) (x : anyarg) (r : list cellv).
+| RowSetValues (j : Z) (x : anyarg) (r : list cellv)
+| FormsOnly (id : Z).       (* set_span / del_span / transpose: only "all forms leave the same table" is checked *)
 Definition set_cell_at (g : grid) (x y : Z) (v : cellv) : grid :=
   set_nth (Z.to_nat y) [] (set_nth (Z.to_nat x) None v (the_row g y)) g.
 Fixpoint set_run (g : grid) (x y : Z) (vals : list cellv) : grid :=
@@ -690,6 +758,7 @@ Definition after (w : Z) (g : grid) (c : wcall) : option grid :=
   | RowInsertCell j x v => x' <- translate_from_any x (lenZ (the_row g j)) 0 ;; Some [insert_nth (Z.to_nat x') None (Some v) (the_row g j)]
   | RowDeleteCell j x => x' <- translate_from_any x (lenZ (the_row g j)) 0 ;; Some [remove_nth (Z.to_nat x') (the_row g j)]
   | RowSetValues j x r => x' <- translate_from_any x (lenZ (the_row g j)) 0 ;; Some (set_run [the_row g j] x' 0 r)
+  | FormsOnly _ => None
   end.
 (* 1: two forms of the same address leave different tables   2: the table after is not the model's
    9: same, outside the property's domain (fidelity note) *)
@@ -700,13 +769,14 @@ Definition chk (c : case_t) : nat :=
   | [] => 0
   | (_, r0) :: _ =>
     if negb (forallb (fun f => ogrid_eqb (snd f) r0) forms) then 1
-    else if forallb (fun f => ogrid_eqb (snd f) (after w g (fst f))) forms then 0
+    else if forallb (fun f => match fst f with FormsOnly _ => true | c => ogrid_eqb (snd f) (after w g c) end) forms then 0
     else if valid then 2 else 9
   end.
 '''
 
 WRITERS = ["SetValue", "SetCell", "SetValues", "InsertCell", "DeleteCell", "SetRow", "InsertRow", "DeleteRow", "SetRowValues", "AppendCell",
-           "InsertColumn", "DeleteColumn", "SetColumnValues", "RowSetValue", "RowInsertCell", "RowDeleteCell", "RowSetValues"]
+           "InsertColumn", "DeleteColumn", "SetColumnValues", "RowSetValue", "RowInsertCell", "RowDeleteCell", "RowSetValues",
+           "SetCells", "SetRowCells", "SetColumnCells", "RowSetCell", "RowSetCells", "SetSpan", "DelSpan", "Transpose"]
 
 
 def gen_write_case(rng, tier):
@@ -727,17 +797,23 @@ def gen_write_case(rng, tier):
                  ("s", cell_name(x, y) + ":" + cell_name(x + 1, y + 1)), ("t", [x, y, x + 1, y + 1])]
     yforms = [("s", str(y + 1)), ("i", y), ("i", y - h), ("s", cell_name(x, y))]
     xforms = [("s", col_name(x)), ("i", x), ("i", x - w), ("s", cell_name(x, y)), ("s", col_name(x).lower())]
-    if m in ("SetValue", "SetCell", "InsertCell"):
-        forms, arg = cellforms, nv[0]
+    zz, t = min(w - 1, x + rng.randint(0, 2)), min(h - 1, y + rng.randint(0, 2))
+    areaforms = [("s", cell_name(x, y) + ":" + cell_name(zz, t)), ("t", [x, y, zz, t]), ("t", [x - w, y - h, zz - w, t - h]), ("s", cell_name(x, y).lower() + ":" + cell_name(zz, t).lower())]
+    if m in ("SetSpan", "DelSpan"):
+        forms = areaforms
+    elif m == "Transpose":
+        forms = areaforms
+    elif m in ("SetValue", "SetCell", "InsertCell", "RowSetCell"):
+        forms, arg = (cellforms if m != "RowSetCell" else [f for f in xforms if f[1] != cell_name(x, y)] + [("s", cell_name(x, j))]), nv[0]
     elif m == "DeleteCell":
         forms = cellforms
-    elif m == "SetValues":
+    elif m in ("SetValues", "SetCells"):
         forms = cellforms if rng.random() < .9 else [None, ("s", ""), ("t", [0, 0]), ("s", "A1")]
         arg = [[rng.choice([None, 900 + 10 * a + b]) for b in range(rng.randint(1, 2))] for a in range(rng.randint(1, 2))]
         for r in arg:
             if r[-1] is None:
                 r[-1] = 990
-    elif m in ("SetRow", "InsertRow", "SetRowValues"):
+    elif m in ("SetRow", "InsertRow", "SetRowValues", "SetRowCells"):
         forms, arg = yforms, vals + ([None] * (w - len(vals)) if m == "SetRowValues" else [])
         if m == "SetRowValues" and len(arg) < w:
             arg = (arg + [951] * w)[:w]
@@ -747,18 +823,18 @@ def gen_write_case(rng, tier):
         forms, arg = yforms, nv[0]
     elif m in ("InsertColumn", "DeleteColumn"):
         forms = xforms
-    elif m == "SetColumnValues":
+    elif m in ("SetColumnValues", "SetColumnCells"):
         forms, arg = xforms, [900 + i for i in range(h)]
     elif m in ("RowSetValue", "RowInsertCell"):
         forms, arg = [f for f in xforms if f[1] != cell_name(x, y)] + [("s", cell_name(x, j))], nv[0]
     elif m == "RowDeleteCell":
         forms = xforms
-    elif m == "RowSetValues":
+    elif m in ("RowSetValues", "RowSetCells"):
         forms, arg = xforms, vals
-    return dict(k="write", table=tb, m=m, j=j, forms=forms, arg=arg, valid=True)
+    return dict(k="write", table=tb, m=m, j=j, forms=forms, arg=arg, valid=True, area=[x, y, zz, t])
 
 
-def do_write(odfdo, xml, m, j, f, arg):
+def do_write(odfdo, xml, m, j, f, arg, spec_area=None):
     from odfdo import Cell, Row, Column
     t = odfdo.Element.from_tag(xml)
     a = form_py(f)
@@ -766,11 +842,28 @@ def do_write(odfdo, xml, m, j, f, arg):
         r = Row()
         r.set_values(vals)
         return r
-    anyk = m in ("SetRow", "InsertRow", "DeleteRow", "SetRowValues", "AppendCell", "InsertColumn", "DeleteColumn", "SetColumnValues") or m.startswith("Row")
+    anyk = m in ("SetRow", "InsertRow", "DeleteRow", "SetRowValues", "AppendCell", "InsertColumn", "DeleteColumn", "SetColumnValues",
+                 "SetRowCells", "SetColumnCells") or m.startswith("Row")
     ft = None if f is None else (any_term(f) if anyk else form_term(f))
     oft = None if anyk else oform_term(f)
     row_level = m.startswith("Row")
-    if m == "SetValue":
+    def mkcells(vals):
+        return [Cell(v) for v in vals]
+    if m in ("SetSpan", "DelSpan", "Transpose"):
+        if m == "DelSpan":
+            t.set_span(tuple(spec_area))
+        call = "FormsOnly %d" % {"SetSpan": 1, "DelSpan": 2, "Transpose": 3}[m]
+        r = guarded({"SetSpan": lambda: t.set_span(a), "DelSpan": lambda: t.del_span(a), "Transpose": lambda: t.transpose(a)}[m])
+        if r[0] == "err":
+            return call, "None"
+        return call, "(Some %s)" % grid_term(abstract_table(t.serialize(), spans=True)[1])
+    if m == "SetCells":
+        call, r = "SetValues %s %s" % (oft, grid_term(arg)), guarded(lambda: t.set_cells([mkcells(r_) for r_ in arg], a))
+    elif m == "SetRowCells":
+        call, r = "SetRow %s %s" % (ft, ozl(arg)), guarded(lambda: t.set_row_cells(a, mkcells(arg)))
+    elif m == "SetColumnCells":
+        call, r = "SetColumnValues %s %s" % (ft, ozl(arg)), guarded(lambda: t.set_column_cells(a, mkcells(arg)))
+    elif m == "SetValue":
         call, r = "SetValue %s %d" % (ft, arg), guarded(lambda: t.set_value(a, arg))
     elif m == "SetCell":
         call, r = "SetCell %s %d" % (ft, arg), guarded(lambda: t.set_cell(a, Cell(arg)))
@@ -800,6 +893,10 @@ def do_write(odfdo, xml, m, j, f, arg):
         row = t.get_row(j)
         if m == "RowSetValue":
             call, r = "RowSetValue %s %s %d" % (z(j), ft, arg), guarded(lambda: row.set_value(a, arg))
+        elif m == "RowSetCell":
+            call, r = "RowSetValue %s %s %d" % (z(j), ft, arg), guarded(lambda: row.set_cell(a, Cell(arg)))
+        elif m == "RowSetCells":
+            call, r = "RowSetValues %s %s %s" % (z(j), ft, ozl(arg)), guarded(lambda: row.set_cells(mkcells(arg), start=a))
         elif m == "RowInsertCell":
             call, r = "RowInsertCell %s %s %d" % (z(j), ft, arg), guarded(lambda: row.insert_cell(a, Cell(arg)))
         elif m == "RowDeleteCell":
@@ -820,7 +917,7 @@ def do_write(odfdo, xml, m, j, f, arg):
 def run_write(spec, odfdo):
     xml = table_xml(spec["table"])
     cols, grid = abstract_table(xml)
-    pairs = [do_write(odfdo, xml, spec["m"], spec["j"], f, spec["arg"]) for f in spec["forms"]]
+    pairs = [do_write(odfdo, xml, spec["m"], spec["j"], f, spec["arg"], spec.get("area")) for f in spec["forms"]]
     return "((%d, %s, %s, [%s]) : case_t)" % (len(cols), grid_term(grid), "true" if spec["valid"] else "false", ";".join("(%s, %s)" % p for p in pairs))
 
 
@@ -1000,6 +1097,71 @@ def execute(group, spec, odfdo, U):
     return run_named(spec, odfdo)
 
 
+def independent_name_ok(n):
+    n2 = n.strip()
+    return bool(n2) and not any(c in n2 for c in "\n\\/*?:[]") and not n2.startswith("'") and not n2.endswith("'")
+
+
+def oracle_case(g, sp, odfdo, U):
+    """direct Python oracle of the property (no Coq): a reason string when the case violates it, else None"""
+    if g == "A":
+        k = sp["k"]
+        if k == "col":
+            a = guarded(U.digit_to_alpha, sp["n"])
+            if a[0] != "ok" or guarded(U.alpha_to_digit, a[1]) != ("ok", sp["n"]) or guarded(U.alpha_to_digit, a[1].lower()) != ("ok", sp["n"]) or a[1] != col_name(sp["n"]):
+                return "letters/numbers bijection"
+        elif k == "alpha":
+            s_ = sp["s"]; d = guarded(U.alpha_to_digit, s_)
+            if not (s_.isascii() and s_.isalpha()):
+                return None if d[0] == "err" else "a string that is not a column name is accepted"
+            if d[0] != "ok" or guarded(U.digit_to_alpha, d[1]) != ("ok", s_.upper()):
+                return "letters/numbers bijection"
+        elif k == "print":
+            kind, x, y, zz, t = sp["kind"], sp["x"], sp["y"], sp["z"], sp["t"]
+            txt, want = [(cell_name(x, y), (x, y)), (cell_name(x, y) + ":" + cell_name(zz, t), (x, y, zz, t)), (col_name(x) + ":" + col_name(zz), (x, None, zz, None)),
+                         ("%d:%d" % (y + 1, t + 1), (None, y, None, t))][kind]
+            r = guarded(U.convert_coordinates, txt)
+            if r[0] != "ok" or tuple(r[1]) != want:
+                return "written address does not parse back"
+        elif k == "incr":
+            v, st = sp["v"], sp["step"]; r = guarded(U.increment, v, st)
+            if (v >= 0 and r != ("ok", v)) or (v < 0 < st and -st <= v and r != ("ok", st + v)):
+                return "negative numbers do not count from the end"
+        return None
+    if g == "B":
+        return None if sp.get("cls") else oracle_read(sp, odfdo)
+    if g == "C":
+        xml = table_xml(sp["table"])
+        outs = [do_write(odfdo, xml, sp["m"], sp["j"], f, sp["arg"], sp.get("area"))[1] for f in sp["forms"]]
+        return "forms-disagree" if any(o != outs[0] for o in outs) else None
+    if sp["k"] == "nmake":
+        from odfdo.table import NamedRange
+        n, a = sp["n"], sp["area"]
+        r = guarded(lambda: NamedRange("nr_x", tuple(a), n))
+        if r[0] == "err":
+            return "accepted table name rejected" if independent_name_ok(n) else None
+        b = guarded(lambda: (lambda e: (e.table_name, tuple(e.crange)))(odfdo.Element.from_tag(r[1].serialize())))
+        return None if b == ("ok", (n.strip(), tuple(a))) else "named range not read back"
+    return None
+
+
+def oracle_search(tier, rng, odfdo, U, budget_s=240):
+    t0 = time.time()
+    gens = [("A", lambda: gen_pure("quick", rng)), ("B", lambda: [gen_read_case(rng, tier) for _ in range(20000)]),
+            ("C", lambda: [gen_write_case(rng, tier) for _ in range(6000)]), ("D", lambda: gen_named(rng, "thorough"))]
+    for g, gen in gens:
+        for sp in gen():
+            if time.time() - t0 > budget_s:
+                return None
+            try:
+                why = oracle_case(g, sp, odfdo, U)
+            except Exception:
+                continue
+            if why:
+                return g, sp, why
+    return None
+
+
 GROUPS = {"A": (HEADER_A, key_pure, 2500), "B": (HEADER_B, key_read, 250), "C": (HEADER_C, key_write, 250), "D": (HEADER_D, key_named, 250)}
 
 
@@ -1091,6 +1253,22 @@ def run(tier, seed, replay=None):
             rp = common.write_replay(PROP, seed, "%s%d-%s" % (g, i, key.replace("/", "_").replace("+", "_")), payload)
             if len(violations) < 8:
                 violations.append((rp, False))
+    broken = (proofs is not None and not proofs["ok"]) or bool(errors_all) or bool(abstraction_errors)
+    if broken and not hard_found:
+        # a proof / the Coq evaluation / the abstraction broke and no failing input is known yet: look for one with the direct Python oracle
+        found = None
+        if replay:
+            for g in "ABCD":
+                for sp in specs[g]:
+                    why = oracle_case(g, sp, odfdo, U)
+                    if why:
+                        found = (g, sp, why)
+        else:
+            found = oracle_search(tier, rng, odfdo, U)
+        if found:
+            g, sp, why = found
+            rp = common.write_replay(PROP, seed, "oracle-%s" % g, dict(group=g, layer="python-oracle: " + why, case=sp, code=None))
+            violations.append((rp, False)); hard_found = True
     for g, sp, msg in abstraction_errors[:3]:
         rp = common.write_replay(PROP, seed, "abstraction-%s" % g, dict(group=g, layer="abstraction", case=sp, error=msg))
         violations.append((rp, not hard_found))
